@@ -67,7 +67,7 @@ def decorated(sh, salt, sid):
     n = len(model.leaves(sh))
     edges = ['HD', 'NK', 'SB', 'OA']
     labels = ['S', 'NP', 'VP', 'PP', 'AP']
-    words = ['a', 'b,', '&c', '<d>', 'e"', "f'", 'gä', 'h#', '#', 'Donaudampfschifffahrtsgesellschaft']
+    words = ['a', 'b,', '&c', '<d>', 'e"', "f'", 'gä', 'h#', '#', 'Donaudampfschifffahrtsgesellschaft', '#1']
     root = model.decorate(sh, lambda p, s: labels[(sum(p) + len(p) + salt) % len(labels)],
                           lambda p, s: edges[(sum(p) + salt) % len(edges)])
     toks = model.mk_tokens(n, words=[words[(salt + i) % len(words)] + str(i) for i in range(n)],
@@ -398,6 +398,8 @@ TRANS_COMBOS = [
     (['add_topnode', 'collapse_unary_chains'], [], []),
     (['filter_by_length'], ['filteroperator:lt', 'filtervalue:3'], []),
     (['filter_by_length', 'add_topnode'], ['filteroperator:gt', 'filtervalue:2'], []),
+    (['filter_by_length'], ['filteroperator:gt', 'filtervalue:0'], []),
+    (['filter_by_length'], ['filteroperator:eq', 'filtervalue:1'], []),
     (['punctuation_delete', 'add_topnode'], ['quiet'], []),
     (['insert_terminals', 'root_attach'], ['terminalfile:{terms}', 'quiet'], []),
 ]
@@ -560,6 +562,7 @@ def run_chunk(chunk):
             for dest in ('export3', 'brackets', 'discobrackets'):
                 devs.append((Pc[:3], ['tigerxml', dest], {'dest_opts': ['gf'], 'expect': 'gf'}))
                 devs.append((Pc[:3], ['export4', dest], {'dest_opts': ['gf', 'gf_separator:#'], 'expect': 'gf', 'sep': '#'}))
+                devs.append((Pc[:3], ['export4', dest], {'dest_opts': ['gf', 'gf_separator:0'], 'expect': 'gf', 'sep': '0'}))
             devs.append((P, ['export3', 'brackets'], {'dest_opts': ['brackets_skipdisco']}))
             devs.append((P, ['tigerxml', 'brackets'], {'dest_opts': ['brackets_skipdisco']}))
             for corp, fmts, dev in devs:
